@@ -29,6 +29,7 @@ type E2Spec struct {
 	RespPeers  int    `json:"resp_peers"`  // responses/commits only from the first RespPeers peers (0 = all)
 	PoolFirst  bool   `json:"pool_first"`  // a requested transaction may enter the pool before OnTransaction is called
 	NotifyFirst bool  `json:"notify_first"` // OnTransaction is called before GetTx can serve the transaction
+	Once       bool   `json:"once"`       // every payload is delivered at most once (saturation strata: all orders of one fixed message set)
 	RecReq     bool   `json:"rec_req"`
 	Bundles    bool   `json:"bundles"`
 	NextHeight bool   `json:"next_height"` // payloads of height h+1 (cache)
@@ -364,6 +365,11 @@ func (w *World) e2Enabled() []Event {
 	}
 	for i, s := range w.e2.syms {
 		if p := s.mk(w); p != nil {
+			if sp.Once {
+				if _, got := w.got[x.id][p.Hash()]; got {
+					continue
+				}
+			}
 			evs = append(evs, Event{K: "inj", N: x.id, A: i})
 		}
 	}
